@@ -5,7 +5,9 @@ From Coq Require Import List NArith Bool.
 Import ListNotations.
 From RX.Model Require Import Base Stream Builder Parse.
 From RX.Spec Require Import Text.
-From RX.Proofs Require Import TextMachine.
+From RX Require Import Generated.
+From RX.Model Require Import Tokenizer Doc.
+From RX.Proofs Require Import TextMachine AttrListProofs.
 Open Scope N_scope.
 
 Theorem C05_attr_chunks_normalise :
@@ -42,3 +44,76 @@ Theorem C05_normalize_attribute_chunks_top :
      else Panic P_unwrap).
 Proof. exact normalize_attribute_chunks_top. Qed.
 Print Assumptions C05_normalize_attribute_chunks_top.
+
+
+(* ---- exact set, source order, no declaration among the attributes (Proofs/AttrListProofs.v) ---- *)
+Theorem C05_process_attribute_classifies :
+  forall text r qn eq prefix local value c c',
+  process_attribute text r qn eq prefix local value c = Ok c' ->
+  d_attrs (c_doc c') = d_attrs (c_doc c) /\ d_nodes (c_doc c') = d_nodes (c_doc c) /\
+  (if bytes_eqb (slice_bytes text prefix) xmlns_str || bytes_eqb (slice_bytes text local) xmlns_str
+   then c_cur_attrs c' = c_cur_attrs c
+   else exists v, c_cur_attrs c' = c_cur_attrs c ++
+          [{| ta_prefix := prefix; ta_local := local; ta_value := v; ta_range := r;
+              ta_qname_len := qn; ta_eq_len := eq |}]).
+Proof. exact process_attribute_classifies. Qed.
+Print Assumptions C05_process_attribute_classifies.
+
+Theorem C05_resolve_attributes_in_order :
+  forall text nss c r c',
+  resolve_attributes text nss c = Ok (r, c') ->
+  c_cur_attrs c' = [] /\
+  (exists new,
+     d_attrs (c_doc c') = d_attrs (c_doc c) ++ new /\
+     map ad_local new = map ta_local (c_cur_attrs c) /\
+     map ad_value new = map ta_value (c_cur_attrs c) /\
+     map ad_range new = map ta_range (c_cur_attrs c) /\
+     map ad_qname_len new = map ta_qname_len (c_cur_attrs c) /\
+     map ad_eq_len new = map ta_eq_len (c_cur_attrs c)) /\
+  r = match c_cur_attrs c with
+      | [] => (0, 0)
+      | _ => (len_N (d_attrs (c_doc c)), len_N (d_attrs (c_doc c')))
+      end /\
+  d_nodes (c_doc c') = d_nodes (c_doc c) /\
+  d_ns_values (c_doc c') = d_ns_values (c_doc c) /\
+  d_ns_tree (c_doc c') = d_ns_tree (c_doc c).
+Proof. exact resolve_attributes_in_order. Qed.
+Print Assumptions C05_resolve_attributes_in_order.
+
+Theorem C05_resolve_attributes_unique :
+  forall text nss c r c' new,
+  resolve_attributes text nss c = Ok (r, c') ->
+  d_attrs (c_doc c') = d_attrs (c_doc c) ++ new ->
+  exists names,
+    Forall2 (fun a n => attr_expanded_name text (c_doc c') (ad_ns_idx a) (ad_local a) = Ok n)
+            new names /\
+    NoDup names.
+Proof. exact resolve_attributes_unique. Qed.
+Print Assumptions C05_resolve_attributes_unique.
+
+Theorem C05_resolve_attributes_unique_eqb :
+  forall text nss c r c' new i j a a' n n',
+  resolve_attributes text nss c = Ok (r, c') ->
+  d_attrs (c_doc c') = d_attrs (c_doc c) ++ new ->
+  nth_error new i = Some a -> nth_error new j = Some a' -> i <> j ->
+  attr_expanded_name text (c_doc c') (ad_ns_idx a) (ad_local a) = Ok n ->
+  attr_expanded_name text (c_doc c') (ad_ns_idx a') (ad_local a') = Ok n' ->
+  opt_str_eqb (fst n) (fst n') && bytes_eqb (snd n) (snd n') = false.
+Proof. exact resolve_attributes_unique_eqb. Qed.
+Print Assumptions C05_resolve_attributes_unique_eqb.
+
+Theorem C05_resolve_attributes_namespace :
+  forall text nss c r c' new,
+  resolve_attributes text nss c = Ok (r, c') ->
+  d_attrs (c_doc c') = d_attrs (c_doc c) ++ new ->
+  Forall2 (fun t a =>
+             let pb := slice_bytes text (ta_prefix t) in
+             if bytes_eqb pb ns_xml_prefix then ad_ns_idx a = Some 0
+             else match pb with
+                  | [] => ad_ns_idx a = None
+                  | _ => get_ns_idx_by_prefix text nss (fst (ta_range t)) (ta_prefix t) (c_doc c')
+                         = Ok (ad_ns_idx a)
+                  end)
+          (c_cur_attrs c) new.
+Proof. exact resolve_attributes_namespace. Qed.
+Print Assumptions C05_resolve_attributes_namespace.
